@@ -13,6 +13,8 @@ CONSTANTS Coins,        \* native coin denominations with a supply, e.g. {"acoin
           ModContracts, \* sequence of contracts RegisterCoin will deploy, in order: <<"m1","m2">>
           ExtContracts, \* externally deployed standard ERC-20 contracts, e.g. {"x1","x2"}
           BadContracts, \* externally deployed contracts that misbehave on transfer
+          BonusContracts, \* external contracts whose transfer credits the recipient amount + amount/2 (taken from the caller): honest
+                          \* for an amount of 1, misbehaving from 2 on
           Amts,         \* conversion amounts
           Start,        \* initial coin / token balance of the user
           Receivers,    \* subset of {"user","blocked"}
@@ -43,7 +45,10 @@ MCMods == <<"m1">>
 MCMods2 == <<"m1", "m2">>
 SeqToSet(s) == {s[i] : i \in DOMAIN s}
 ModSet == SeqToSet(ModContracts)
-External == ExtContracts \cup BadContracts
+External == ExtContracts \cup BadContracts \cup BonusContracts
+(* the token does not move exactly the requested amount: the conversion is refused (balance check after the transfer) *)
+SameMeta == ExtContracts \cup BonusContracts          \* contracts that report the same name, symbol and decimals
+Misbehaves(c, a) == c \in BadContracts \/ (c \in BonusContracts /\ a >= 2)
 Contracts == ModSet \cup External
 Voucher(c) == "agg/" \o c
 Denoms == Coins \cup {Voucher(c) : c \in External}
@@ -117,7 +122,7 @@ ToggleEff(t) ==
 UpdateOK(old, new) ==
   /\ old \in DOMAIN byErc20 /\ HasPair(byErc20[old])
   /\ LET p == PairOf(byErc20[old]) IN p.denoms[1] = Voucher(old) /\ p.denoms[1] \in meta
-  /\ new \in ExtContracts /\ old \in ExtContracts /\ code[new]     \* same ERC-20 name and symbol as the metadata says
+  /\ new \in SameMeta /\ old \in SameMeta /\ code[new]     \* same ERC-20 name and symbol as the metadata says
   /\ CheckNewAddr => new \notin DOMAIN byErc20
 UpdateEff(old, new) ==
   IF ~UpdateOK(old, new) THEN UNCHANGED stateVars
@@ -158,7 +163,7 @@ ConvertCoinOK(d, a, recv) ==
   /\ LET p == PairOf(byDenom[d]) IN
      ~code[p.erc20]                                   \* clean-up path: succeeds, deletes the pair
      \/ /\ cbal[d] >= a
-        /\ p.owner = "external" => (tesc[p.erc20] >= a /\ p.erc20 \notin BadContracts)
+        /\ p.owner = "external" => (tesc[p.erc20] >= a /\ ~Misbehaves(p.erc20, a))
 ConvertCoinEff(d, a, recv) ==
   IF ~ConvertCoinOK(d, a, recv) THEN UNCHANGED stateVars
   ELSE LET p == PairOf(byDenom[d])  c == p.erc20 IN
@@ -178,7 +183,7 @@ ConvertERC20OK(c, d, a, recv) ==
      ~code[c]
      \/ /\ tbal[c] >= a
         /\ p.owner = "module" => escrow[d] >= a
-        /\ p.owner = "external" => c \notin BadContracts
+        /\ p.owner = "external" => ~Misbehaves(c, a)
 ConvertERC20Eff(c, d, a, recv) ==
   IF ~ConvertERC20OK(c, d, a, recv) THEN UNCHANGED stateVars
   ELSE LET p == PairOf(byErc20[c]) IN
